@@ -604,6 +604,101 @@ def law_check(k, p, nodes):
             elif not same(cp, par):
                 bad("API parent", n, cur_str(cp))
             nchecked += 5
+        # clamping of expand, and containment across different lists
+        if kind == "s":
+            big = b.expand(99, 99)
+            if not same(big, full):
+                bad("expand clamps at the ends of the enclosing block", n, cur_str(big))
+            e11 = b.expand(1, 1)
+            if (e11._range.start, e11._range.stop) != (max(0, idx - 1), min(ln, idx + 2)):
+                bad("expand(1, 1) adds one statement on each side, clamped", n, cur_str(e11))
+            if isinstance(node, LoopIR.If) and node.orelse:
+                bb, ob = n._child_block("body"), n._child_block("orelse")
+                if (bb[0] in ob) or (ob[0] in bb) or (bb in ob) or not (bb[0] in bb) or not (ob[-1] in ob):
+                    bad("a block only contains cursors of its own attribute", n, "")
+            if len(path) > 1:
+                top = IC.Node(root._root, [])._child_block("body")
+                if n in top or b in top or n.before() in top:
+                    bad("a block does not contain nested statements", n, "")
+            nchecked += 4
+    # ---- '#n' and shorthand laws on the real find (no model involved)
+    RANK = {"cond": 0, "lo": 1, "hi": 2, "idx": 3, "lhs": 4, "rhs": 5, "args": 6, "arg": 7, "pt": 8, "body": 9, "orelse": 10}
+
+    def start(c):
+        i = c._impl
+        if isinstance(i, IC.Node):
+            return [(RANK[a], -1 if k is None else k) for a, k in i._path]
+        return [(RANK[a], -1 if k is None else k) for a, k in i._anchor._path] + [(RANK[i._attr], i._range.start)]
+
+    def findlaw(pat, shorthand=None):
+        nonlocal nchecked
+        try:
+            L = p.find_all(pat)
+        except BaseException:  # noqa: BLE001
+            L = []
+        keys = [start(c) for c in L]
+        nchecked += 1
+        if any(not (keys[i] < keys[i + 1]) for i in range(len(keys) - 1)):
+            fails.append({"kind": "findlaw", "law": "find_all is strictly increasing in program order", "cursor": pat, "detail": str([cur_str(c) for c in L])[:300]})
+        for k in range(len(L) + 1):
+            calls = [("find(pat #k)", lambda k=k: p.find("%s #%d" % (pat, k))), ("find(pat #k, many)", lambda k=k: p.find("%s#%d " % (pat, k), many=True)[0])]
+            if shorthand is not None:
+                fn, nm = shorthand
+                calls.append(("%s(name #k)" % fn.__name__, lambda k=k: fn("%s #%d" % (nm, k))))
+            for what, f in calls:
+                nchecked += 1
+                try:
+                    r = f()
+                    if k >= len(L) or cur_str(r) != cur_str(L[k]):
+                        fails.append({"kind": "findlaw", "law": "'#n' selects the n-th element of find_all: " + what, "cursor": pat, "detail": "k=%d got %s" % (k, cur_str(r))})
+                except AC.SchedulingError:
+                    if k < len(L):
+                        fails.append({"kind": "findlaw", "law": "'#n' selects the n-th element of find_all: " + what, "cursor": pat, "detail": "k=%d raised" % k})
+        if L and shorthand is not None:
+            fn, nm = shorthand
+            nchecked += 1
+            if cur_str(fn(nm)) != cur_str(L[0]):
+                fails.append({"kind": "findlaw", "law": "name shorthand = first match", "cursor": pat, "detail": cur_str(fn(nm))})
+
+    loops = sorted({str(nd.iter) for _, nd, kd in nodes if kd == "s" and isinstance(nd, LoopIR.For)})
+    argn = {str(a.name) for a in p._loopir_proc.args}
+    allocs = sorted({str(nd.name) for _, nd, kd in nodes if kd == "s" and isinstance(nd, LoopIR.Alloc)} - argn)
+    writes = sorted({str(nd.name) for _, nd, kd in nodes if kd == "s" and isinstance(nd, (LoopIR.Assign, LoopIR.Reduce))})
+    for v in loops[:3]:
+        findlaw("for %s in _: _" % v, (p.find_loop, v))
+    for x in allocs[:3]:
+        findlaw("%s: _" % x, (p.find_alloc_or_arg, x))
+    for x in writes[:3]:
+        findlaw("%s = _" % x)
+        findlaw("%s[_] += _" % x)
+    findlaw("if _: _")
+    findlaw("_ + _")
+    # ---- further laws of the documented interface (each is a separate finding class)
+    for v in loops[:2]:
+        try:
+            L = p.find_all("for %s in _: _" % v)
+        except BaseException:  # noqa: BLE001
+            L = []
+        for k in range(1, len(L)):
+            nchecked += 1
+            r1 = run(lambda: p.find_loop("%s #%d" % (v, k)))
+            r2 = run(lambda: p.find_loop("%s # %d" % (v, k)))
+            if r1 != r2:
+                fails.append({"kind": "hash-space", "law": "find_loop('name # n') = find_loop('name #n')", "cursor": "%s # %d" % (v, k),
+                              "detail": "%s vs %s" % (r2, r1)})
+    if any(isinstance(nd, LoopIR.Extern) and nd.f.name() == "sin" for _, nd, kd in nodes if kd == "e"):
+        nchecked += 1
+        r1 = run(lambda: p.find("sin(_)", many=True))
+        r2 = run(lambda: p.find_all("sin(_)"))
+        if r1 != r2:
+            fails.append({"kind": "find_all-extern", "law": "find_all(pat) = find(pat, many=True)", "cursor": "sin(_)", "detail": "%s vs %s" % (r2[:120], r1[:120])})
+    if writes:
+        pat = "%s = _" % writes[0]
+        nchecked += 1
+        r1 = run(lambda: p.find(pat, many=True))
+        r2 = run(lambda: p.body().find(pat, many=True))
+        if r1.startswith("(ok") and r1 != r2:
+            fails.append({"kind": "block-find", "law": "p.body().find(pat) = p.find(pat)", "cursor": pat, "detail": "%s vs %s" % (r2[:120], r1[:120])})
     return fails, nchecked
 
 
@@ -740,8 +835,37 @@ def nav_queries(rng, p, nodes, budget):
 
 
 # --------------------------------------------------------------------------------------------------
+PROBE = G.HEADER + """@proc
+def probe(n: size, A: f32[n, n] @ DRAM, B: f32[n] @ DRAM):
+    assert stride(A, 1) == 1
+    Cfg.a = 1
+    callee_s(n, B[0:n], stride(A, 1))
+"""
+
+
+def probe_quirks():
+    """which of the three known deviations does the implementation under test exhibit right now?"""
+    with open(os.path.join(scratch, "m_probe.py"), "w") as f:
+        f.write(PROBE)
+    p = importlib.import_module("m_probe").probe
+
+    def finds(pat):
+        try:
+            return len(p.find_all(pat)) > 0
+        except Exception:  # noqa: BLE001
+            return False
+
+    ir = p._loopir_proc
+    emit({"t": "proc", "id": -1, "src": PROBE, "sexp": ex_proc(ir), "n_nodes": 0, "n_stmts": 0})
+    for pat in ("stride(A, 0)", "stride(A, 1)", "callee_s(1, 2, 3)", "callee_s(_, _, _)", "_.a = _", "Cfg._ = _", "Cfg.a = _"):
+        do_find(-1, p, None, [str(a.name) for a in ir.args], "find_all", pat, True, None, "known-witness")
+    bits = ("1" if finds("stride(A, 0)") else "0") + ("1" if finds("callee_s(1, 2, 3)") else "0") + ("0" if finds("_.a = _") else "1")
+    emit({"t": "quirks", "bits": bits, "src": PROBE})
+
+
 def main():
     rng = random.Random(seed)
+    probe_quirks()
     made = 0
     attempts = 0
     while made < n_procs and attempts < n_procs * 3:
